@@ -168,6 +168,10 @@ def run(ctx):
     from sa.engine import SubCtx
     from rules import c01, c08
     c01.r8(SubCtx(ctx, {'R8': 'R5'}))
+    # the position of an element must not change when its block stabilises between two pages: an
+    # unstable UTXO is sorted under the height of the applied block, which is the height the stable
+    # index will hold it under (shared with C01.R2)
+    c01.r2(SubCtx(ctx, {'R2': 'R5'}))
     c08.r1b(SubCtx(ctx, {'R1b': 'R8'}))
 
 
